@@ -2,6 +2,7 @@ package doublesign
 
 import (
 	"errors"
+	"math"
 	"time"
 )
 
@@ -35,6 +36,11 @@ type maxWaitError struct {
 }
 
 func (m *maxWaitError) apply(wait time.Duration, waitErr error) {
+	if wait <= 0 {
+		// apply is called only when the remaining time is positive, so a non-positive value
+		// means that "threshold - since" overflowed: saturate instead of dropping the error
+		wait = math.MaxInt64
+	}
 	if m.wait < wait {
 		m.wait = wait
 		m.waitErr = waitErr
